@@ -573,21 +573,31 @@ def AcceptsAt (skip : Bool) (st maxF : Nat) (h : Header) : Prop :=
 
 /-- the frames that may follow the first fragment of an open message: control frames anywhere,
     non-final fragments, and a final fragment last — each accepted in the fragmented state `st`. -/
-inductive Tail (skip : Bool) (st maxF : Nat) : List WFrame → Prop
+inductive Tail (ao skip : Bool) (st maxF : Nat) : List WFrame → Prop
+  /-- the known prefix of the message ends here with the message still open (what follows on the
+      transport is arbitrary: the next fragment, an offending frame, a cut, …) -/
+  | opn : ao = true → Tail ao skip st maxF []
   | last (f : WFrame) : f.OK → opIsControl f.h.op = false → f.h.fin = true → AcceptsAt skip st maxF f.h →
-      Tail skip st maxF [f]
+      Tail ao skip st maxF [f]
   | cont (f : WFrame) (fs : List WFrame) : f.OK → opIsControl f.h.op = false → f.h.fin = false →
-      AcceptsAt skip st maxF f.h → Tail skip st maxF fs → Tail skip st maxF (f :: fs)
+      AcceptsAt skip st maxF f.h → Tail ao skip st maxF fs → Tail ao skip st maxF (f :: fs)
   | ctl (f : WFrame) (fs : List WFrame) : f.OK → opIsControl f.h.op = true → AcceptsAt skip st maxF f.h →
-      Tail skip st maxF fs → Tail skip st maxF (f :: fs)
+      Tail ao skip st maxF fs → Tail ao skip st maxF (f :: fs)
+
+/-- the frame list really ends with a final fragment (no open end) -/
+def closed : List WFrame → Bool
+  | [] => false
+  | [f] => !opIsControl f.h.op && f.h.fin
+  | _ :: fs => closed fs
 
 /-- concatenation of the unmasked payloads of the data frames -/
 def dataPlain : List WFrame → Bytes
   | [] => []
   | f :: fs => (if opIsControl f.h.op then [] else f.plain) ++ dataPlain fs
 
-theorem Tail.allOK {skip st maxF fs} (h : Tail skip st maxF fs) : ∀ f ∈ fs, f.OK := by
+theorem Tail.allOK {ao skip st maxF fs} (h : Tail ao skip st maxF fs) : ∀ f ∈ fs, f.OK := by
   induction h with
+  | opn _ => intro g hg; simp at hg
   | last f hok => intro g hg; simp at hg; subst hg; exact hok
   | cont f fs hok _ _ _ _ ih => intro g hg; simp at hg; rcases hg with rfl | hg; exact hok; exact ih g hg
   | ctl f fs hok _ _ _ ih => intro g hg; simp at hg; rcases hg with rfl | hg; exact hok; exact ih g hg
@@ -604,16 +614,16 @@ structure Common (skip : Bool) (st maxF : Nat) (r : Rd) (s : Src) : Prop where
   stClr : stIs (stClear st stFragmented) stFragmented = false
 
 /-- where the reader stands inside a message whose remaining expected output is the last index -/
-inductive Sync (skip : Bool) (st maxF : Nat) (rest : Bytes) : Rd → Src → Bytes → Prop
+inductive Sync (ao skip : Bool) (st maxF : Nat) (rest : Bytes) : Rd → Src → Bytes → Prop
   | mid (r : Rd) (s : Src) (wire : Bytes) (fs : List WFrame) : Common skip st maxF r s →
-      InFrame r s wire (encodeFs fs ++ rest) → r.state = st → Tail skip st maxF fs →
-      Sync skip st maxF rest r s (plainOf r wire ++ dataPlain fs)
+      InFrame r s wire (encodeFs fs ++ rest) → r.state = st → Tail ao skip st maxF fs →
+      Sync ao skip st maxF rest r s (plainOf r wire ++ dataPlain fs)
   | lastFrame (r : Rd) (s : Src) (wire : Bytes) : Common skip st maxF r s →
       InFrame r s wire rest → r.state = stClear st stFragmented →
-      Sync skip st maxF rest r s (plainOf r wire)
+      Sync ao skip st maxF rest r s (plainOf r wire)
   | between (r : Rd) (s : Src) (fs : List WFrame) : Common skip st maxF r s →
-      r.hasFrame = false → r.state = st → s.bytes = encodeFs fs ++ rest → Tail skip st maxF fs →
-      Sync skip st maxF rest r s (dataPlain fs)
+      r.hasFrame = false → r.state = st → s.bytes = encodeFs fs ++ rest → Tail ao skip st maxF fs →
+      Sync ao skip st maxF rest r s (dataPlain fs)
 
 def weight (r : Rd) (s : Src) : Nat := mu s + (if r.hasFrame then 1 else 0)
 
@@ -658,14 +668,14 @@ theorem common_of (skip st maxF) {r : Rd} {s : Src} (c : Common skip st maxF r s
   ⟨by rw [h1, c.ext], by rw [h2, c.u8], by rw [h3, c.skip], by rw [h4, c.maxF], ht, hw, c.stF, c.stSet, c.stClr⟩
 
 /-- **One Read from inside a frame of an open or closing message.** -/
-theorem step_inframe (skip : Bool) (st maxF : Nat) (rest : Bytes) (r : Rd) (s : Src) (cx : Ctx) (cb : Option Callback)
+theorem step_inframe (ao skip : Bool) (st maxF : Nat) (rest : Bytes) (r : Rd) (s : Src) (cx : Ctx) (cb : Option Callback)
     (k : Nat) (hk : 0 < k) (rem : Bytes)
     (hs : (∃ wire fs, Common skip st maxF r s ∧ InFrame r s wire (encodeFs fs ++ rest) ∧ r.state = st
-              ∧ Tail skip st maxF fs ∧ rem = plainOf r wire ++ dataPlain fs)
+              ∧ Tail ao skip st maxF fs ∧ rem = plainOf r wire ++ dataPlain fs)
           ∨ (∃ wire, Common skip st maxF r s ∧ InFrame r s wire rest ∧ r.state = stClear st stFragmented
               ∧ rem = plainOf r wire)) :
     ∃ bytes e r' s', r.read s cx k cb = some (bytes, bytes.length, e, r', s', cx) ∧ mu s' ≤ mu s ∧
-      ((e = none ∧ ∃ rem', rem = bytes ++ rem' ∧ Sync skip st maxF rest r' s' rem' ∧ weight r' s' < weight r s)
+      ((e = none ∧ ∃ rem', rem = bytes ++ rem' ∧ Sync ao skip st maxF rest r' s' rem' ∧ weight r' s' < weight r s)
        ∨ (e = some .eof ∧ rem = bytes ∧ s'.bytes = rest ∧ Src.Tame s' ∧ Done st r r')) := by
   rcases hs with ⟨wire, fs, hc, hin, hst, htail, hrem⟩ | ⟨wire, hc, hin, hst, hrem⟩
   · -- a non-final fragment
@@ -754,29 +764,41 @@ theorem wf_append_right {a b : Bytes} (h : Bytes.WF (a ++ b)) : Bytes.WF b :=
 theorem wf_append_left {a b : Bytes} (h : Bytes.WF (a ++ b)) : Bytes.WF a :=
   fun x hx => h x (List.mem_append.mpr (Or.inl hx))
 
+/-- the reader has consumed the whole known prefix of a still-open message: it stands between two
+    frames, everything known has been delivered, and the transport holds exactly `rest` -/
+structure AtEnd (ao skip : Bool) (st maxF : Nat) (rest : Bytes) (r : Rd) (s : Src) (rem : Bytes) : Prop where
+  opn : ao = true
+  common : Common skip st maxF r s
+  has : r.hasFrame = false
+  state : r.state = st
+  bytes : s.bytes = rest
+  rem : rem = []
+
 /-- **One Reader.Read anywhere inside a message** (OnIntermediate unset): it returns the next
     piece of the expected output — possibly empty, e.g. when it only skipped an interleaved control
     frame or an empty transport chunk — with no error, re-establishing the invariant on a strictly
     smaller transport; or it returns the last piece together with io.EOF, the transport standing
     exactly behind the message and the reader reset. No other outcome exists. -/
-theorem step (skip : Bool) (st maxF : Nat) (rest : Bytes) (r : Rd) (s : Src) (cx : Ctx) (k : Nat) (hk : 0 < k)
-    (rem : Bytes) (hs : Sync skip st maxF rest r s rem) :
-    ∃ bytes e r' s', r.read s cx k none = some (bytes, bytes.length, e, r', s', cx) ∧
-      ((e = none ∧ ∃ rem', rem = bytes ++ rem' ∧ Sync skip st maxF rest r' s' rem' ∧ weight r' s' < weight r s)
-       ∨ (e = some .eof ∧ rem = bytes ∧ s'.bytes = rest ∧ Src.Tame s' ∧ Done st r r')) := by
+theorem step (ao skip : Bool) (st maxF : Nat) (rest : Bytes) (r : Rd) (s : Src) (cx : Ctx) (k : Nat) (hk : 0 < k)
+    (rem : Bytes) (hs : Sync ao skip st maxF rest r s rem) :
+    (∃ bytes e r' s', r.read s cx k none = some (bytes, bytes.length, e, r', s', cx) ∧
+      ((e = none ∧ ∃ rem', rem = bytes ++ rem' ∧ Sync ao skip st maxF rest r' s' rem' ∧ weight r' s' < weight r s)
+       ∨ (e = some .eof ∧ rem = bytes ∧ s'.bytes = rest ∧ Src.Tame s' ∧ Done st r r')))
+    ∨ AtEnd ao skip st maxF rest r s rem := by
   cases hs with
   | mid wire fs hc hin hst htail =>
-    obtain ⟨b, e, r', s', h1, _, h2⟩ := step_inframe skip st maxF rest r s cx none k hk _
+    obtain ⟨b, e, r', s', h1, _, h2⟩ := step_inframe ao skip st maxF rest r s cx none k hk _
       (Or.inl ⟨wire, fs, hc, hin, hst, htail, rfl⟩)
-    exact ⟨b, e, r', s', h1, h2⟩
+    exact Or.inl ⟨b, e, r', s', h1, h2⟩
   | lastFrame wire hc hin hst =>
-    obtain ⟨b, e, r', s', h1, _, h2⟩ := step_inframe skip st maxF rest r s cx none k hk _
+    obtain ⟨b, e, r', s', h1, _, h2⟩ := step_inframe ao skip st maxF rest r s cx none k hk _
       (Or.inr ⟨wire, hc, hin, hst, rfl⟩)
-    exact ⟨b, e, r', s', h1, h2⟩
+    exact Or.inl ⟨b, e, r', s', h1, h2⟩
   | between fs hc hhas hst hb htail =>
     have hfrag : r.fragmented = true := by simp [Rd.fragmented, hst, hc.stF]
     have hw0 : weight r s = mu s := by simp [weight, hhas]
     cases htail with
+    | opn hao => exact Or.inr ⟨hao, hc, hhas, hst, by simpa [encodeFs] using hb, rfl⟩
     | ctl f fs' hok hctl hacc ht' =>
       have hbytes : s.bytes = rfcEncode f.h ++ (f.wire ++ (encodeFs fs' ++ rest)) := by
         rw [hb]; simp [encodeFs, WFrame.enc, List.append_assoc]
@@ -787,7 +809,7 @@ theorem step (skip : Bool) (st maxF : Nat) (rest : Bytes) (r : Rd) (s : Src) (cx
         unfold Accepts; rw [hc.skip, hst, hc.maxF]; exact hacc
       obtain ⟨s3, hnf, hb3, ht3, hmu3⟩ := nextFrame_ctl r s s1 cx f (encodeFs fs' ++ rest) hrh hacc' hc.ext hctl hfrag hb1 hok.len ht1
       have hrd := read_skip r (skipCtl r f.h) s s3 cx cx none k (some f.h) hhas hfrag hnf (by simp [skipCtl, hhas])
-      refine ⟨[], none, skipCtl r f.h, s3, by simpa using hrd, Or.inl ⟨rfl, dataPlain fs', ?_, ?_, ?_⟩⟩
+      refine Or.inl ⟨[], none, skipCtl r f.h, s3, by simpa using hrd, Or.inl ⟨rfl, dataPlain fs', ?_, ?_, ?_⟩⟩
       · simp [dataPlain, hctl]
       · refine Sync.between _ s3 fs' ?_ (by simp [skipCtl, hhas]) (by simp [skipCtl, hst]) hb3 ht'
         exact common_of skip st maxF hc _ _ (by simp [skipCtl]) (by simp [skipCtl]) (by simp [skipCtl]) (by simp [skipCtl]) ht3
@@ -808,10 +830,10 @@ theorem step (skip : Bool) (st maxF : Nat) (rest : Bytes) (r : Rd) (s : Src) (cx
       have hin5 : InFrame (enter r f.h) s1 f.wire (encodeFs fs' ++ rest) :=
         ⟨by simp [enter], by simp [enter, hc.u8], hb1, by simp [enter, hok.len], by rw [hb1]; exact hwt, by simp [enter]; exact hok.mwf, ht1⟩
       have hst5 : (enter r f.h).state = st := by simp [enter, hfin, hst, hc.stSet]
-      obtain ⟨b, e, r', s', h1, hmle, h2⟩ := step_inframe skip st maxF rest (enter r f.h) s1 cx none k hk
+      obtain ⟨b, e, r', s', h1, hmle, h2⟩ := step_inframe ao skip st maxF rest (enter r f.h) s1 cx none k hk
         (plainOf (enter r f.h) f.wire ++ dataPlain fs') (Or.inl ⟨f.wire, fs', hc5, hin5, hst5, ht', rfl⟩)
       have hpl : plainOf (enter r f.h) f.wire = f.plain := rfl
-      refine ⟨b, e, r', s', by rw [hrd]; exact h1, ?_⟩
+      refine Or.inl ⟨b, e, r', s', by rw [hrd]; exact h1, ?_⟩
       rcases h2 with ⟨he, rem', hr1, hr2, hr3⟩ | ⟨he, hr1, hr2, hr3, hr4⟩
       · refine Or.inl ⟨he, rem', ?_, hr2, ?_⟩
         · simp only [dataPlain, hdata, Bool.false_eq_true, if_false]; rw [← hpl]; exact hr1
@@ -836,10 +858,10 @@ theorem step (skip : Bool) (st maxF : Nat) (rest : Bytes) (r : Rd) (s : Src) (cx
       have hin5 : InFrame (enter r f.h) s1 f.wire rest :=
         ⟨by simp [enter], by simp [enter, hc.u8], hb1, by simp [enter, hok.len], by rw [hb1]; exact hwt, by simp [enter]; exact hok.mwf, ht1⟩
       have hst5 : (enter r f.h).state = stClear st stFragmented := by simp [enter, hfin, hst]
-      obtain ⟨b, e, r', s', h1, hmle, h2⟩ := step_inframe skip st maxF rest (enter r f.h) s1 cx none k hk
+      obtain ⟨b, e, r', s', h1, hmle, h2⟩ := step_inframe ao skip st maxF rest (enter r f.h) s1 cx none k hk
         (plainOf (enter r f.h) f.wire) (Or.inr ⟨f.wire, hc5, hin5, hst5, rfl⟩)
       have hpl : plainOf (enter r f.h) f.wire = f.plain := rfl
-      refine ⟨b, e, r', s', by rw [hrd]; exact h1, ?_⟩
+      refine Or.inl ⟨b, e, r', s', by rw [hrd]; exact h1, ?_⟩
       rcases h2 with ⟨he, rem', hr1, hr2, hr3⟩ | ⟨he, hr1, hr2, hr3, hr4⟩
       · refine Or.inl ⟨he, rem', ?_, hr2, ?_⟩
         · simp only [dataPlain, hdata, Bool.false_eq_true, if_false, List.append_nil]; rw [← hpl]; exact hr1
@@ -870,36 +892,80 @@ def reads : Rd → Src → Ctx → List Nat → Option (Bytes × Option RErr × 
         | none => none
         | some (o, e2, r2, s2, cx2) => some (bytes.take n ++ o, e2, r2, s2, cx2)
 
-/-- **Any sequence of Reads** with positive buffer sizes, from any point inside a message. -/
-theorem reads_sync (skip : Bool) (st maxF : Nat) (rest : Bytes) (ks : List Nat) (hpos : ∀ k ∈ ks, 0 < k)
-    (r : Rd) (s : Src) (cx : Ctx) (rem : Bytes) (hs : Sync skip st maxF rest r s rem) :
-    ∃ out e r' s', reads r s cx ks = some (out, e, r', s', cx) ∧
-      ((e = none ∧ ∃ rem', rem = out ++ rem' ∧ Sync skip st maxF rest r' s' rem' ∧ weight r' s' + ks.length ≤ weight r s)
-       ∨ (e = some .eof ∧ rem = out ∧ s'.bytes = rest ∧ Src.Tame s' ∧ Done st r r')) := by
+/-- **Any sequence of Reads** with positive buffer sizes, from any point inside a message: either
+    all of them stay inside the known frames (no error, the invariant holds again, the transport
+    has shrunk by at least one unit per Read), or one of them returns the end of the message
+    (io.EOF), or — when the known part of the message has an open end — after the first `ks1` of
+    them everything known has been delivered without error and the reader stands at that end. -/
+theorem reads_sync (ao skip : Bool) (st maxF : Nat) (rest : Bytes) (ks : List Nat) (hpos : ∀ k ∈ ks, 0 < k)
+    (r : Rd) (s : Src) (cx : Ctx) (rem : Bytes) (hs : Sync ao skip st maxF rest r s rem) :
+    (∃ out e r' s', reads r s cx ks = some (out, e, r', s', cx) ∧
+      ((e = none ∧ ∃ rem', rem = out ++ rem' ∧ Sync ao skip st maxF rest r' s' rem' ∧ weight r' s' + ks.length ≤ weight r s)
+       ∨ (e = some .eof ∧ rem = out ∧ s'.bytes = rest ∧ Src.Tame s' ∧ Done st r r')))
+    ∨ (∃ ks1 k2 ks2 out1 r1 s1, ks = ks1 ++ k2 :: ks2 ∧ reads r s cx ks1 = some (out1, none, r1, s1, cx)
+        ∧ rem = out1 ∧ AtEnd ao skip st maxF rest r1 s1 []) := by
   induction ks generalizing r s rem with
-  | nil => exact ⟨[], none, r, s, rfl, Or.inl ⟨rfl, rem, by simp, hs, by simp⟩⟩
+  | nil => exact Or.inl ⟨[], none, r, s, rfl, Or.inl ⟨rfl, rem, by simp, hs, by simp⟩⟩
   | cons k ks ih =>
-    obtain ⟨b, e, r1, s1, hrd, hcase⟩ := step skip st maxF rest r s cx k (hpos k (by simp)) rem hs
-    simp only [reads, hrd]
-    rcases hcase with ⟨he, rem1, hr1, hs1, hw1⟩ | ⟨he, hr1, hb1, ht1, hd1⟩
-    · subst he
-      obtain ⟨o, e2, r2, s2, hrd2, hcase2⟩ := ih (fun k' hk' => hpos k' (by simp [hk'])) r1 s1 rem1 hs1
-      simp only [hrd2, List.take_length]
-      refine ⟨b ++ o, e2, r2, s2, rfl, ?_⟩
-      rcases hcase2 with ⟨he2, rem2, hr2, hs2, hw2⟩ | ⟨he2, hr2, hb2, ht2, hd2⟩
-      · refine Or.inl ⟨he2, rem2, by rw [hr1, hr2, List.append_assoc], hs2, ?_⟩
-        simp only [List.length_cons]; omega
-      · refine Or.inr ⟨he2, by rw [hr1, hr2], hb2, ht2, ?_⟩
-        -- the configuration fields are constant along the message
-        have hcfg : r1.skipCheck = r.skipCheck ∧ r1.checkUTF8 = r.checkUTF8 ∧ r1.ext = r.ext ∧ r1.maxFrame = r.maxFrame := by
-          have c1 : Common skip st maxF r1 s1 := by cases hs1 <;> assumption
-          have c0 : Common skip st maxF r s := by cases hs <;> assumption
-          exact ⟨by rw [c1.skip, c0.skip], by rw [c1.u8, c0.u8], by rw [c1.ext, c0.ext], by rw [c1.maxF, c0.maxF]⟩
-        obtain ⟨g1, g2, g3, g5⟩ := hd2.cfg
-        exact ⟨hd2.has, hd2.state, hd2.op, hd2.u8, hd2.raw, hd2.u8on,
-          by rw [g1, hcfg.1], by rw [g2, hcfg.2.1], by rw [g3, hcfg.2.2.1], by rw [g5, hcfg.2.2.2]⟩
-    · subst he
-      simp only [List.take_length]
-      exact ⟨b, some .eof, r1, s1, rfl, Or.inr ⟨rfl, hr1, hb1, ht1, hd1⟩⟩
+    rcases step ao skip st maxF rest r s cx k (hpos k (by simp)) rem hs with ⟨b, e, r1, s1, hrd, hcase⟩ | hend
+    · rcases hcase with ⟨he, rem1, hr1, hs1, hw1⟩ | ⟨he, hr1, hb1, ht1, hd1⟩
+      · subst he
+        rcases ih (fun k' hk' => hpos k' (by simp [hk'])) r1 s1 rem1 hs1 with ⟨o, e2, r2, s2, hrd2, hcase2⟩ | ⟨ks1, k2, ks2, o1, r2, s2, hks, hrd2, hrem2, hend2⟩
+        · left
+          simp only [reads, hrd, hrd2, List.take_length]
+          refine ⟨b ++ o, e2, r2, s2, rfl, ?_⟩
+          rcases hcase2 with ⟨he2, rem2, hr2, hs2, hw2⟩ | ⟨he2, hr2, hb2, ht2, hd2⟩
+          · refine Or.inl ⟨he2, rem2, by rw [hr1, hr2, List.append_assoc], hs2, ?_⟩
+            simp only [List.length_cons]; omega
+          · refine Or.inr ⟨he2, by rw [hr1, hr2], hb2, ht2, ?_⟩
+            have hcfg : r1.skipCheck = r.skipCheck ∧ r1.checkUTF8 = r.checkUTF8 ∧ r1.ext = r.ext ∧ r1.maxFrame = r.maxFrame := by
+              have c1 : Common skip st maxF r1 s1 := by cases hs1 <;> assumption
+              have c0 : Common skip st maxF r s := by cases hs <;> assumption
+              exact ⟨by rw [c1.skip, c0.skip], by rw [c1.u8, c0.u8], by rw [c1.ext, c0.ext], by rw [c1.maxF, c0.maxF]⟩
+            obtain ⟨g1, g2, g3, g5⟩ := hd2.cfg
+            exact ⟨hd2.has, hd2.state, hd2.op, hd2.u8, hd2.raw, hd2.u8on,
+              by rw [g1, hcfg.1], by rw [g2, hcfg.2.1], by rw [g3, hcfg.2.2.1], by rw [g5, hcfg.2.2.2]⟩
+        · right
+          refine ⟨k :: ks1, k2, ks2, b ++ o1, r2, s2, by rw [hks]; rfl, ?_, by rw [hr1, hrem2], hend2⟩
+          simp only [reads, hrd, hrd2, List.take_length]
+      · subst he
+        left
+        simp only [reads, hrd, List.take_length]
+        exact ⟨b, some .eof, r1, s1, rfl, Or.inr ⟨rfl, hr1, hb1, ht1, hd1⟩⟩
+    · right
+      exact ⟨[], k, ks, [], r, s, rfl, rfl, hend.rem, ⟨hend.opn, hend.common, hend.has, hend.state, hend.bytes, rfl⟩⟩
+
+/-- chaining: Reads that ended without error continue from where they stopped -/
+theorem reads_append (r : Rd) (s : Src) (cx : Ctx) (ks1 ks2 : List Nat) (o1 : Bytes) (r1 : Rd) (s1 : Src) (cx1 : Ctx)
+    (h : reads r s cx ks1 = some (o1, none, r1, s1, cx1)) :
+    reads r s cx (ks1 ++ ks2) = (reads r1 s1 cx1 ks2).map fun x => (o1 ++ x.1, x.2) := by
+  induction ks1 generalizing r s cx o1 with
+  | nil =>
+    simp only [reads, Option.some.injEq, Prod.mk.injEq] at h
+    obtain ⟨h1, _, h3, h4, h5⟩ := h
+    subst h1 h3 h4 h5
+    cases hq : reads r s cx ks2 <;> simp [hq]
+  | cons k ks ih =>
+    simp only [reads, List.cons_append] at h ⊢
+    cases hrd : r.read s cx k none with
+    | none => simp [hrd] at h
+    | some res =>
+      obtain ⟨bytes, n, e, r', s', cx'⟩ := res
+      simp only [hrd] at h ⊢
+      cases e with
+      | some e => simp at h
+      | none =>
+        simp only at h ⊢
+        cases hrs : reads r' s' cx' ks with
+        | none => simp [hrs] at h
+        | some res2 =>
+          obtain ⟨o, e2, r2, s2, cx2⟩ := res2
+          simp only [hrs, Option.some.injEq, Prod.mk.injEq] at h
+          obtain ⟨h1, h2, h3, h4, h5⟩ := h
+          subst h2 h3 h4 h5
+          rw [ih r' s' cx' o hrs]
+          cases reads r2 s2 cx2 ks2 with
+          | none => simp
+          | some x => simp [← h1, List.append_assoc]
 
 end Ws.RdProof
